@@ -312,18 +312,6 @@ class RelEngine(Engine):
         # re-dispatch to the core implementation (the iterable was already evaluated once; evaluation is pure for our uses)
         return Engine.st_For(self, n, st)
 
-    def havoc_for_loop(self, st, body, extra_locals=()):
-        """loops in pointer code call methods that modify fields of OTHER objects: havoc what the contract module declares"""
-        h = super().havoc_for_loop(st, [], extra_locals) if False else st.copy()
-        loc, fld = self.assigned(body)
-        for x in list(loc) + list(extra_locals):
-            if x in h.locals:
-                h.locals[x] = self.havoc_like(h.locals[x], x)
-        for (field, kind, part) in getattr(self, "loop_havoc", []):
-            old = h.h(field, kind, part)
-            h.set_h(field, kind, part, fresh(f"H_{field}", old.sort()))
-        return h
-
     def havoc_like(self, v, name):
         if isinstance(v, VRef):
             return VRef(fresh(name, Ref), v.cls)
